@@ -115,3 +115,9 @@ for _p in ("C08", "C14", "C15", "C16", "C17", "C18", "C19"):
 PROPS["C28"] = P("exploration", "Each evaluation is one seeded plan on a 1-3 node cluster (ReplicaN 1-2): for each of set/mutex/bool/time/int a pair of twin fields with identical options; every logical write (bit set/clear with optional timestamp, integer value set/clear) is applied to both twins through independently drawn paths (Set/Clear PQL, Import set/clear by ids, ImportValue, ImportRoaring in Pilosa or official encoding into the standard view or into every time view of the timestamp); expression trees, Count, Sum/Min/Max, Rows (with time ranges) and TopN(ids) are then run on both twins; the two answers must be equal and equal to the model.", L4_REAL, L4_STUB, budget=(45, 900))
 PROPS["C28"]["shrink_args"] = {}
 MAN["C28"] = {"text": "Seeded exploration of path mixtures on twin fields of simulated clusters; twin answers compared with each other and with the model.", "note": "Import by keys is covered by C24/C30; clears on time fields only through Clear() (timestamped clear-imports are rejected by design)."}
+
+C24_REAL = ["pilosa.TranslateFile (primary and replica): log append through bufio, mmap replay, hash index growth, replication loop with retry timer", "real files on tmpfs through intercepted os calls"]
+C24_STUB = ["the HTTP stream between primary and replica is replaced by an in-process reader over TranslateFile.Reader that can be cut after any number of bytes", "executor/API key translation call sites (exercised by C26/C30)"]
+PROPS["C24"] = P("exploration", "Each evaluation is one seeded plan: 1-3 client tasks issue batches of column and row keys (repeats inside a batch, empty key, 4090- and 5000-byte keys, Unicode, quotes; 300-key batches in some plans to cross the table-growth threshold) in up to 4 namespaces to a primary TranslateFile, interleaved at lock granularity under PCT/random schedules; a replica TranslateFile streams the primary's log through a reader cut after 0..6000 bytes (entry boundaries and mid-entry), reconnecting after the simulated 1 s retry interval; primary and replica are restarted between batches. Oracle: every key maps to one positive id forever, ids are injective per namespace, repeats inside a batch agree, reverse lookup returns the key, the mapping is identical after restart, and within 30 simulated seconds after the last fault the replica's forward and reverse mappings equal the primary's.", C24_REAL, C24_STUB, budget=(40, 900))
+PROPS["C24"]["shrink_args"] = {"tr": (0, 1)}
+MAN["C24"] = {"text": "Seeded search over interleavings of concurrent translate batches, restarts and stream cuts on a real primary/replica pair of translate stores; stability, injectivity, reverse lookup, restart equality and bounded-time replica convergence are checked.", "note": "Store-level: the HTTP transport of the log stream is stubbed by an in-process cut-able reader; hash collisions are not specifically provoked."}
